@@ -8,6 +8,7 @@ import (
 	_ "verif/h/c18"
 	_ "verif/h/c20"
 	_ "verif/h/cli"
+	_ "verif/h/codec"
 	_ "verif/h/conn"
 	_ "verif/h/life"
 	_ "verif/h/order"
